@@ -386,8 +386,11 @@ class Mesh:
                     (1 << np.arange(self.refdom.nfacets))[:, None]
                     & data[0].astype(np.int32)
                 ).astype(bool)
-                facets = np.sort(self.t2f[mask])
+                facets = self.t2f[mask]
                 cells = mask.nonzero()[1]
+                # sort the facets together with the cells they were found in
+                ix = np.argsort(facets)
+                facets, cells = facets[ix], cells[ix]
                 ori = np.arange(2) @ (self.f2t[:, facets] == cells)
                 boundaries[subnames[2]] = (
                     OrientedBoundary(facets, ori) if ori.any() else facets
